@@ -16,7 +16,7 @@ RULE = ('Generated case (refs/c05_tankgen.py) = reservoir feeding 1-4 junctions 
         'through a head pump (1- or 3-point curve, lift 6-25 m) or a long pipe, 1-3 tanks (cylindrical or 1-4 segment volume curve starting at 0 or '
         'min_level and ending at max_level or 1 m above it; init level anywhere incl. exactly min/max; area from a '
         'drawn traverse time of 1-8 h) each with 1-3 links (pipe either direction, CV pipe in/out, pump in/out, '
-        'initially closed pipe; 1 case in 4 with >= 2 tanks also a tank-to-tank pipe), demand patterns with multipliers 0.05-3.6, 0-3 tank-level/pressure controls, in one case in three 1-4 time controls at arbitrary instants with priorities 0-6; '
+        'initially closed pipe; 1 case in 4 with >= 2 tanks also a tank-to-tank pipe), demand patterns with multipliers 0.05-3.6, 0-3 tank-level/pressure controls, in one case in three 1-4 time controls at arbitrary instants with priorities 0-6; one case in four with a volume-curve tank was simulated before with other curve points (re-assigned through Curve.points, reset); '
         'duration 12-72 h, hydraulic step 900-7200 s (<= 100 steps), DD (15 % PDD). Oracle per tank and per pair '
         'of consecutive rows. Non-trivial = converged run in which some tank reaches a level limit (within 1 mm) or '
         'a partial (off-grid) step is reported; distinct = SHA-1 of the case.')
@@ -72,6 +72,10 @@ def strategy(draw, tier='quick'):
             case['controls'].append({'kind': 'time', 'at': draw(st.integers(1, max(1, dur - 1))), 'link': l['name'],
                                      'attr': 'status', 'value': draw(st.sampled_from(['OPEN', 'CLOSED'])),
                                      'priority': draw(st.sampled_from([None, 0, 1, 2, 4, 6]))})
+    vc = sorted(t['vol_curve'] for t in case['tanks'] if t.get('vol_curve'))
+    if vc and draw(st.integers(0, 3)) == 0:
+        fac = draw(st.sampled_from([0.5, 2.0]))
+        case['vol_curve_edit'] = {name: [[x, round(y * fac, 3)] for x, y in case['curves'][name]['pts']] for name in vc}
     h = S.draw_history(draw, st, case['opts'])
     if h:
         case['history'] = h
@@ -177,9 +181,36 @@ def tank_checks(case, run, tags):
     return None
 
 
+def _prelude(case):
+    """the model has a past: it was simulated for two steps while the volume curves of its tanks had another shape
+    (same levels, other volumes), then the curves were re-assigned through Curve.points to the points of the spec and
+    the model was reset; the run that is judged must integrate with the curves as they are now"""
+    ed = case.get('vol_curve_edit')
+    if not ed:
+        return None
+
+    def run_past(wn):
+        import wntr
+        dur = wn.options.time.duration
+        for name, pts in sorted(ed.items()):
+            wn.get_curve(name).points = [(float(x), float(y)) for x, y in pts]
+        wn.options.time.duration = min(dur, 2 * wn.options.time.hydraulic_timestep)
+        try:
+            wntr.sim.WNTRSimulator(wn).run_sim()
+        except Exception:
+            pass
+        for name in sorted(ed):
+            wn.get_curve(name).points = [(float(x), float(y)) for x, y in case['curves'][name]['pts']]
+        wn.options.time.duration = dur
+        wn.reset_initial_values()
+    return run_past
+
+
 def check(case):
     tags = G.spec_tags(case)
-    run, bad = G.simulate(case)
+    if case.get('vol_curve_edit'):
+        tags.append('history:simulated_with_other_volume_curves_then_reassigned')
+    run, bad = G.simulate(case, _prelude(case))
     if bad:
         if bad[0] == 'fail':
             return fail(bad[1], bad[2], tags)
